@@ -156,11 +156,11 @@ class Check:
             print('  rule %-28s %3d/%3d (floor %d)' % (r, d['discharged'], d['obligations'], d['floor']))
         for l in lines:
             print(l)
-        if self.broken:
-            for b in self.broken:
-                print('ANALYSIS-BROKEN property=%s %s' % (self.pid, b))
-            return 2
-        return 1 if viol else 0
+        for b in self.broken:
+            print('ANALYSIS-BROKEN property=%s %s' % (self.pid, b))
+        if viol:
+            return 1   # a reported construct is a violation whatever else could not be analysed
+        return 2 if self.broken else 0
 
 
 def run_check(pid, tier, fn):
